@@ -128,6 +128,16 @@ CLAIMS["C09"] = dict(
               "logic and the re-parse. The assertion that triggered ids belong to higher levels is allowed to fail (AssertionError/KeyError are "
               "listed as possible escapes).")
 
+CLAIMS["C16"] = dict(
+    text="Proof of the funnel and of non-interference of diagnostics: scan-stdin / scan_string spool exactly the given string (or every stdin "
+         "line in order) and then call the same per-file scan function as a named file, only the reported name differs; the API's "
+         "__build_common_arguments returns, position by position, the command-line spelling of the API object's state (all 96 paths); the "
+         "--stack-trace flag only ever flows into what is put INTO an error message (structural data-flow obligation over all 18 reads); every "
+         "ParserLogger call has a literal format string, so enabling a log level cannot make a call fail (one obligation per logging function).",
+    note=TB + "Known finding D11: 200 logger calls in 54 functions interpolate token text into the format; at DEBUG level `fix` of a document "
+              "containing '$' fails. NOT covered: the line-splitting equivalence of InMemorySourceProvider and FileSourceProvider (str.split is "
+              "uninterpreted), scan_path / fix_path / fix_string wrappers, OS newline translation.")
+
 NA = {
     "C01": "totality of the ~60 kLoC parser is a postcondition of TokenizedMarkdown.transform; no contract chain within reach without a Python deductive verifier (DESIGN.md 7)",
     "C02": "round-trip of parser + 5 kLoC regenerator needs the token stream specified as an encoding of the document (C03+C04+C05 in full) first (DESIGN.md 7)",
